@@ -258,7 +258,7 @@ def judge_query13(r, T, qid, g, nrs):
 
 
 def run(ck):
-    n = 150 if ck.quick() else 3000
+    n = 420 if ck.quick() else 4000
     bad = vlib.step_lean(ck, "RlModel.Thm.C13", THEOREMS, extra_targets=["drv_c13"])
     ok, log = vlib.step_cargo(ck, ["c13"])
     if not ok:
